@@ -12,6 +12,7 @@ import Pandora.Model.C13Multi
 import Pandora.Model.C13Jsonline
 import Pandora.Model.C13Grpc
 import Pandora.Model.C13Cfg
+import Pandora.Model.C13Csv
 
 set_option linter.unusedSimpArgs false
 
@@ -397,5 +398,17 @@ theorem csvComma_bridge (delimiter : Bytes) :
     (if Gen.C13Src.csvCommaGuard delimiter then indexC delimiter Gen.C13Src.csvCommaIndex else .ok 44) = csvComma true delimiter := by
   cases delimiter <;>
     simp [Gen.C13Src.csvCommaGuard, Gen.C13Src.csvCommaIndex, boundC, csvComma, indexC] <;> omega
+
+/-- `readCsv`: inside the loop over the column names the record is indexed only where it has the column (`i` = the key of
+a `range`, so `0 ≤ i`), and exactly there - as `csvRowFrom true` has it (`if i ≥ record.length then "" else record[i]`) -/
+theorem csvRecord_bridge (i recLen : Int) (hi : 0 ≤ i) :
+    (Gen.C13Src.csvRecordGuard i recLen → boundC (Gen.C13Src.csvRecordIndex i recLen) recLen = .ok ()) ∧
+    (Gen.C13Src.csvRecordGuard i recLen ↔ ¬ i ≥ recLen) := by
+  unfold Gen.C13Src.csvRecordGuard Gen.C13Src.csvRecordIndex boundC
+  constructor
+  · intro h
+    have : 0 ≤ i ∧ i < recLen := by omega
+    simp [this]
+  · omega
 
 end Pandora.Bridge.C13
